@@ -188,11 +188,11 @@ class HistoryGen:
         if name == 'add_streamed_objects_to_pack':
             b = self.batch()
             self._note(b)
-            return {'op': name, 'cs': b, 'streams': rnd.choice(['bytesio', 'lazy', 'file']), **self._direct_flags()}
+            return {'op': name, 'cs': b, 'streams': rnd.choice(['bytesio', 'lazy', 'file', 'dribble']), **self._direct_flags()}
         if name == 'add_streamed_object_to_pack':
             s = self.spec()
             self._note([s])
-            return {'op': name, 'c': s, **self._direct_flags()}
+            return {'op': name, 'c': s, 'stream': rnd.choice(['bytesio', 'dribble']), **self._direct_flags()}
         if name == 'pack_all_loose':
             return {
                 'op': name,
